@@ -11,6 +11,16 @@ Obligations on the real code:
    it is the only routine that sets batch_updates.committed; first reads take locks.
  * cancel_job_group: the transfer out of the user's counters sums only rows of COMMITTED updates (pointwise obligation on the
    aggregate's row predicate).
+ * (wave 4) _create_jobs is verified on the WHOLE per-job region (contracts/create_jobs_frag.fragment_tail): besides the
+   initial state, the row handed to the INSERT carries that state and n_pending_parents = number of job_parents rows written,
+   in every update - a job with a parent in its own (open) update cannot count down to Ready before the commit.
+ * (wave 4) commit_batch_update rewrites only jobs OF the update being committed (pointwise, under the id-range invariant).
+ * (wave 4) mark_job_complete marks the batch complete only when the root tally equals the number of jobs of COMMITTED updates:
+   the total it compares with is batches.n_jobs (invariant K) or an aggregate over batch_updates proved pointwise to range over
+   exactly the committed updates of the batch - an open update never keeps a batch from completing.
+ * (wave 4) nothing of an uncommitted update is visible to the schedulers' selection predicate (contracts/sched_visibility.py):
+   every job selection is confined to running groups/batches, only commit_batch_update can set 'running', no Python INSERT
+   creates a running group/batch, _create_job_group under a pyvc contract.
  * mark_job_complete children statement: a child may be made Ready only if its update is committed.  This obligation FAILS
    on the unchanged tree: the statement joins job_parents without any `committed` conjunct (known finding F1, recorded in
    known_findings.json with the failing history); any other violation of U is reported as a VIOLATION.
@@ -23,7 +33,7 @@ import os
 
 import z3
 
-from contracts import cancel_counters, create_jobs_frag, sqlspec as SP
+from contracts import cancel_counters, create_jobs_frag, sched_visibility, sqlspec as SP
 from vc import core, sqlast as A, sqlparse, sqlvc
 
 
@@ -37,15 +47,23 @@ def committed(db, b, u):
 def build(ctx):
     ex = SP.proc_exec(inline_after=False)
     # ---- _create_jobs
-    create_jobs_frag.add(ctx, a=['ready-iff-first-update-and-no-parents', 'otherwise-pending'], b=['jobs-row-fields'])
+    # the whole per-job region as one contract (wave 4; it subsumes the two positional fragments used before: same clauses,
+    # and locals computed anywhere in the region flow into the rows)
+    create_jobs_frag.add(ctx, a=(), b=(), tail=['ready-iff-first-update-and-no-parents', 'otherwise-pending', 'jobs-row-appended', 'jobs-row-fields', 'n_pending_parents-is-the-number-of-parents',
+                                                'n_pending_parents-covers-every-parent-row-in-every-update', 'one-parent-row-per-parent-in-order'])
 
     # ---- commit_batch_update: rollback on a wrong count, only writer of `committed`
     name = 'commit_batch_update'
     rt = ex.routines[name]
     ctx.under_contract(SP.rel(rt.source_file), 'PROCEDURE ' + name)
-    outs = ex.run_procedure(name)
+    st0 = ex.new_state()
+    for t in ('jobs', 'batch_updates'):
+        st0.db.tab(t)
+    base = st0.db.fork()
+    outs = ex.run_procedure(name, st0)
     n_rb = 0
     for pi, s in enumerate(outs):
+        _commit_touches_only_its_own_jobs(ctx, name, pi, s, base)
         rc = s.results[-1][0][1] if s.results else None
         live = [e for e in s.effects if e.kind in ('insert', 'upsert', 'update', 'update-set', 'insert-select', 'upsert-select', 'delete', 'delete-set', 'loop-set') and not e.data.get('rolled_back')]
         committing = [e for e in live if e.table == 'batch_updates']
@@ -80,26 +98,111 @@ def build(ctx):
     rt = ex.routines[name]
     ctx.under_contract(SP.rel(rt.source_file), 'PROCEDURE ' + name)
     st0 = ex.new_state()
-    for t in ('jobs', 'job_parents', 'batch_updates'):
+    for t in ('jobs', 'job_parents', 'batch_updates', 'batches', 'job_groups_n_jobs_in_complete_states'):
         st0.db.tab(t)
     base = st0.db.fork()
     outs = ex.run_procedure(name, st0)
+    n_completing = 0
     for pi, s in enumerate(outs):
         bb = s.vars['in_batch_id']
         pre = [z3.Not(bb.n), SP.terminal(s.vars['new_state'])]
         if not sqlvc.feasible(list(s.pc) + pre, 2000):
             continue
+        n_completing += _batch_completion(ctx, name, pi, s, base, bb, pre)
         for e in [e for e in s.effects if e.table == 'jobs' and e.kind == 'update-set' and 'n_pending_parents' in e.data.get('assigned', [])]:
             kv, aff, o, n_ = e.data['kvars'], e.data['affected'], e.data['old_row'], e.data['new_row']
             upd = o['update_id']
             SP.add_valid(ctx, '%s/children-statement/makes-a-child-ready-only-if-its-update-is-committed' % name, s.pc[: e.data['pc_len']], pre + [aff, SP.is_state(n_['state'], 'Ready')], committed(base, kv[0], upd.v), dedupe_key='F1')
+    ctx.add(core.decided('%s/batch-completion/the-statement-that-completes-the-batch-is-under-contract' % name, n_completing >= 1, '%d paths write batches.state' % n_completing, kind='vacuity'))
     # ---- the parent itself: completing a job of an uncommitted update must not touch tallies: precondition, stated
     _selection_queries(ctx)
+    # ---- nothing of an uncommitted update is visible to the schedulers' selection predicate (running-group guard, writers of
+    #      'running', state of newly inserted groups/batches, _create_job_group under contract)
+    sched_visibility.build(ctx, ex)
     SP.engine_obligations(ctx, ex)
     ctx.assume('each procedure call is atomic (serialisable isolation); MySQL NULL/boolean semantics as encoded in vc/sqlvc.py')
     ctx.assume('schedule_job / mark_job_started are only called for jobs returned by the selection queries checked here (Ready jobs); a job of an uncommitted update can complete only through the canceller/errored paths, which require a selected job as well')
     ctx.undecided('that an update which is never committed leaves staging rows behind (job_groups_inst_coll_staging) - they are read only by commit_batch_update of that update')
-    ctx.undecided('job groups created in an uncommitted update (front_end _create_job_groups) and their visibility in listings')
+    ctx.undecided('job groups created in an uncommitted update: their visibility in LISTINGS / the UI (their invisibility to the schedulers is decided: sched_visibility)')
+    ctx.undecided('mark_job_group_complete: completion of a nested job group against job_groups.n_jobs (committed jobs only by invariant K) is left to C06')
+    ctx.assume('invariant K (C06): batches.n_jobs = sum of n_jobs over the committed updates of the batch (commit_batch_update is its only writer); catalogue invariants: one batch_updates row per (batch, update) and job ids of update u lie exactly in [start_job_id(u), start_job_id(u) + n_jobs(u)) (C09 ranges; C08 known finding: the range is not enforced on insertion)')
+
+
+def _commit_touches_only_its_own_jobs(ctx, name, pi, s, base):
+    """C41 'whatever happens meanwhile': committing update u rewrites (state, n_pending_parents, cancelled) only of jobs OF u -
+    a job of another, still open update is not made Ready by someone else's commit.  Stated over the tables, for every
+    set-oriented UPDATE of jobs in the procedure: affected(row) ==> row.update_id = in_update_id, under the catalogue
+    invariants (assumed; established by _create_batch_update / _create_jobs, C09 and C08): one batch_updates row per
+    (batch, update), and a job belongs to update u iff its id lies in [start_job_id(u), start_job_id(u) + n_jobs(u))."""
+    bb, uu = s.vars['in_batch_id'], s.vars['in_update_id']
+    pre = [z3.Not(bb.n), z3.Not(uu.n)]
+    ups = [e for e in s.effects if e.table == 'jobs' and e.kind in ('update-set', 'update', 'loop-set') and not e.data.get('rolled_back')]
+    if not ups:
+        return
+    jobs0, bu0 = base.tab('jobs'), base.tab('batch_updates')
+    b, u = bb.v, uu.v
+    sg, sj, sg2, sj2, j = z3.Ints('sg_r sj_r sg2_r sj2_r j_r')
+    nj = bu0.get([b, u, sg, sj], 'n_jobs')
+    ju = jobs0.get([b, j], 'update_id')
+    one_row = z3.ForAll([sg, sj, sg2, sj2], z3.Implies(z3.And(bu0.has([b, u, sg, sj]), bu0.has([b, u, sg2, sj2])), z3.And(sg == sg2, sj == sj2)))
+    ranges = z3.ForAll([sg, sj, j], z3.Implies(z3.And(bu0.has([b, u, sg, sj]), jobs0.has([b, j])), z3.And(z3.Not(nj.n), z3.Not(ju.n), z3.And(sj <= j, j < sj + nj.v) == (ju.v == u))))
+    for e in ups:
+        if e.kind != 'update-set':
+            ctx.add(core.decided('%s/path%d/jobs-are-rewritten-by-a-set-oriented-statement-under-contract' % (name, pi), False, e.kind, kind='frame'))
+            continue
+        if not sqlvc.feasible(list(s.pc[: e.data['pc_len']]) + pre, 2000):
+            continue
+        kv, aff = e.data['kvars'], e.data['affected']
+        ku = jobs0.get(kv, 'update_id')
+        o = SP.add_valid(ctx, '%s/path%d/rewrites-only-jobs-of-the-update-being-committed' % (name, pi), s.pc[: e.data['pc_len']], pre + [one_row, ranges], z3.ForAll(kv, z3.Implies(aff, z3.And(kv[0] == b, z3.Not(ku.n), ku.v == u))), dedupe_key='commit-own-jobs')
+        if o is not None:
+            ctx.add(core.satisfiable('%s/path%d/vacuity/some-job-is-rewritten' % (name, pi), list(s.pc[: e.data['pc_len']]) + pre + [aff]))
+
+
+COMMITTED_TOTAL = z3.Function('committed_n_jobs', z3.IntSort(), z3.IntSort())  # spec: sum of n_jobs over the COMMITTED updates of a batch
+
+
+def _batch_completion(ctx, name, pi, s, base, bb, pre):
+    """C41 'never change whether the batch is complete': mark_job_complete may set batches.state only when the root tally
+    n_completed equals the number of jobs of COMMITTED updates.  The total the code compares with must therefore be
+    batches.n_jobs (invariant K of C06: = committed total, commit_batch_update being its only writer) or an aggregate over
+    batch_updates whose row predicate is exactly `this batch and committed` (pointwise obligation on the recorded predicate)."""
+    b = bb.v
+    n = 0
+    bt0, bu0 = base.tab('batches'), base.tab('batch_updates')
+    for e in [e for e in s.effects if e.table == 'batches' and 'state' in e.data.get('assigned', []) and not e.data.get('rolled_back')]:
+        n += 1
+        lab = '%s/batch-completion' % name
+        if e.kind != 'update' or len(e.data.get('key', [])) != 1:
+            ctx.add(core.decided('%s/path%d/writes-the-state-of-one-batch-row' % (lab, pi), False, 'effect kind %s' % e.kind, kind='frame'))
+            continue
+        pc_e = list(s.pc[: e.data['pc_len']])
+        nj = bt0.get([b], 'n_jobs')
+        hyps = [z3.Implies(bt0.has([b]), z3.And(z3.Not(nj.n), nj.v == COMMITTED_TOTAL(b)))]  # invariant K (C06), instantiated at this batch
+        for r in [r for r in s.aggregates if 'symbol' in r and r['func'] == 'SUM' and any('batch_updates' in str(k) for k in r['kvars'])]:
+            cols = [str(k).split('k_batch_updates_')[-1].split('!')[0] for k in r['kvars']]
+            if cols != bu0.pk[1:]:
+                ctx.add(core.decided('%s/path%d/aggregate-over-batch_updates-pins-only-the-batch' % (lab, pi), False, 'free key columns %r' % cols, kind='scan'))
+                continue
+            key = [b] + list(r['kvars'])
+            comm, njobs = bu0.get(key, 'committed'), bu0.get(key, 'n_jobs')
+            spec = z3.And(bu0.has(key), z3.Not(comm.n), comm.v != 0)
+            arg = r['arg']
+            o1 = SP.add_valid(ctx, '%s/path%d/a-job-total-summed-over-batch_updates-counts-exactly-the-committed-updates-of-this-batch' % (lab, pi), pc_e, pre,
+                              z3.ForAll(r['kvars'], z3.And(r['cond'] == spec, z3.Implies(spec, z3.And(z3.Not(arg.n), z3.Not(njobs.n), arg.v == njobs.v)))), dedupe_key='agg-%s' % r['expr'])
+            # sound only together with the pointwise obligation just emitted; SUM over no row is NULL (the sum of no committed
+            # update is 0).  The emptiness test is the very term sqlvc puts into the NULL flag of the aggregate
+            empty = z3.Not(z3.Exists(r['kvars'], r['cond'])) if r['kvars'] else z3.Not(r['cond'])
+            hyps.append(z3.If(empty, z3.IntVal(0), r['symbol']) == COMMITTED_TOTAL(b))
+        tally = s.db.tab('job_groups_n_jobs_in_complete_states').get([b, z3.IntVal(0)], 'n_completed')
+        new_state = e.data['new']['state']
+        goal = z3.And(e.data['key'][0] == b, z3.Not(tally.n), tally.v == COMMITTED_TOTAL(b))
+        o = SP.add_valid(ctx, '%s/path%d/the-batch-is-marked-complete-only-when-the-root-tally-equals-the-jobs-of-committed-updates' % (lab, pi), pc_e, pre + hyps, goal, dedupe_key='batch-complete')
+        if o is None:  # same verification condition as on an earlier path (paths differ in branches irrelevant to the goal)
+            continue
+        ctx.add(core.satisfiable('%s/path%d/vacuity/completing-path-reachable' % (lab, pi), pc_e + pre + hyps + [SP.is_state(new_state, 'complete')]))
+        ctx.add(core.satisfiable('%s/path%d/canary/complete-at-one-more-than-the-committed-total' % (lab, pi), pc_e + pre + hyps + [z3.Not(z3.And(z3.Not(tally.n), tally.v == COMMITTED_TOTAL(b) + 1))], kind='canary'))
+    return n
 
 
 def _selection_queries(ctx):
@@ -127,3 +230,17 @@ def _selection_queries(ctx):
         ctx.under_contract(rel, 'job selection queries')
     ctx.extra['selection_queries'] = ['%s:%d ready=%s' % x for x in found]
     ctx.add(core.decided('scheduler/every-job-selection-query-requires-state-Ready', len(found) >= 4 and all(ok for _, _, ok in found), repr(found), kind='scan'))
+
+
+def native_witness(ctx):
+    """used by vc.check only when the contracts no longer apply to a changed source (exit 2/3): bounded replays of the REAL
+    statements - the per-job region of _create_jobs on a grid of updates / parent lists, and _create_job_group with a recording
+    transaction.  Only a confirmed failing input is reported."""
+    for f in (create_jobs_frag.replay_tail, sched_visibility.native_witness_inserted_state):
+        try:
+            r = f()
+        except Exception:  # pylint: disable=broad-except
+            continue
+        if isinstance(r, dict) and r.get('confirmed'):
+            return r
+    return {'confirmed': False}
